@@ -23,7 +23,7 @@ codecs (outside the repository). -/
 | "never leaves the object half-built" | `retry_ok_state`, `constructE_ok_state` (whenever the constructor returns: one complete accepted attempt, `finish` applied) | all strategy lists, all call paths |
 | "when a builder rejects one candidate part-way and a later one succeeds, nothing from the rejected attempt remains" | `reset_absorbs`, `retry_first_accept`, `retry_by_index`, `retry_all_reject`, `retry_raise_propagates`, `machineE_wf`; for the live code `feed_touches_reassigned`, `header_and_reset_fields` (whole instrumented tables) | all k, all states a rejected attempt can leave, given the frame conditions (`Machine.WF`), which the tables check for the live objects |
 | quantifier "lone surrogates, NULs, very long numeric references, every truncation" | `heuristics_total` (surrogates), `charref_total` (every name, any length), witnesses `*_fails_*`; truncations act only through the tokenizer primitive (`tokFeed`/`tokClose`) | model: all; tokenizer: recorded |
-| quantifier "BOMs, invalid sequences, bogus or python-specific declared charsets, all constructor encoding arguments" | `envelope` over all `cands`/`lookup`/`decode` behaviours; `dammitE_some_of_fallback` | all |
+| quantifier "BOMs, invalid sequences, bogus or python-specific declared charsets, all constructor encoding arguments" | `envelope` over all `cands`/`lookup`/`decode` behaviours; `dammitE_some_of_fallback`; `original_encoding_is_codec` (the tree can be rendered in its own encoding: the name is a text codec), `withEmptyGuard_within` | all |
 | quantifier "all patterns of k rejections followed by acceptance" | `retry_first_accept`, `retry_by_index` | all k |
 
 Scope of "every call path": `BeautifulSoup.__init__` from the markup checks on (bs4/__init__.py:439-490). The lines before
@@ -897,6 +897,78 @@ theorem dammitE_some_of_fallback {V : Type} (code : Code) (P : Prims V) (encs : 
 
 example : Prims.DammitQuiet Code.live Prims.quiet [1, 2] :=
   ⟨rfl, fun e => ⟨some e, rfl⟩, fun _ _ _ h => by simp [Prims.quiet] at h, rfl⟩
+
+/-! ### `original_encoding` names the codec the document was read as -/
+
+/-- **Repaired `_to_unicode`.** Whatever the candidates, the codecs and the clauses do: when UnicodeDammit ends with a
+    result, its `original_encoding` is a name `"".encode(name)` accepts, i.e. a text codec — for data that is empty after
+    the byte-order mark by the repair's own check, for any other data because CPython's `str(data, codec, errors)` looks
+    the codec up (`hlook`, recorded). -/
+theorem original_encoding_is_codec {V : Type} (code : Code) (P : Prims V) (enc : Nat → Except Err Unit) (empty : Bool)
+    (hlook : empty = false → ∀ c b u, P.decode c b = .ok u → enc c = .ok ()) (d : DammitResult) (c : Nat)
+    (h : dammitE code (P.withEmptyGuard enc empty) = .ok d) (hc : d.originalEncoding = some c) : enc c = .ok () := by
+  unfold dammitE at h
+  split at h
+  · cases h
+  · rename_i p1 h1
+    have i1 : EncInv enc p1.2 :=
+      pass1E_encInv code P enc empty hlook _ {} p1 (by intro c' hc'; cases hc') h1
+    split at h
+    · cases h
+    · rename_i p2 h2
+      have i2 : EncInv enc p2.2.2 := by
+        split at h2
+        · injection h2 with h2; subst h2; exact i1
+        · exact pass2E_encInv code P enc empty hlook _ _ _ p2 i1 h2
+      split at h
+      · injection h with h; subst h; cases hc
+      · injection h with h; subst h
+        exact i2 c hc
+
+/-- the repair keeps the primitives within the recorded kinds (`LookupError` is a recorded kind of the decode step), so
+    `envelope_live` applies to the repaired code unchanged -/
+theorem withEmptyGuard_within {V : Type} (P : Prims V) (r : Recorded) (hP : P.Within r) (enc : Nat → Except Err Unit)
+    (empty : Bool) (henc : ∀ c x, enc c = .error x → x ∈ r.decode) : (P.withEmptyGuard enc empty).Within r :=
+  { hP with
+    decode := by
+      intro c b x hx
+      simp only [Prims.withEmptyGuard, guardedDecode] at hx
+      split at hx
+      · split at hx
+        · rename_i x' he
+          injection hx with hx; subst hx
+          exact henc c x' he
+        · exact hP.decode c b x hx
+      · exact hP.decode c b x hx }
+
+/-- a BOM-only document: every `str(b"", name, …)` "succeeds"; candidate 1 is a name that is no codec, candidate 2 the
+    byte-order mark's own encoding -/
+def bomOnly : Prims Unit := { Prims.silent with cands := [.ok 1, .ok 2], decode := fun _ _ => .ok [] }
+def bomOnlyEnc : Nat → Except Err Unit := fun c => if c = 1 then .error .lookupError else .ok ()
+
+/-- witness on the unrepaired form (`BeautifulSoup(b"\xef\xbb\xbf", "html.parser", from_encoding="nosuch")`): the bogus
+    name becomes `original_encoding` … -/
+theorem original_encoding_old_not_codec :
+    (dammitE Code.live bomOnly).map (·.originalEncoding) = .ok (some 1) ∧ bomOnlyEnc 1 = .error .lookupError := by decide
+
+/-- the model mirrors the REPAIRED `_to_unicode`: on BOM-only documents with names that are no text codec the live
+    constructor (run by the translator) reports a codec — false of a tree without
+    fixes/C06-empty-after-bom-bogus-encoding.diff -/
+theorem live_original_encoding_is_codec :
+    Gen.C06.liveOriginalEncodingIsCodec.length = 15 ∧ ∀ p ∈ Gen.C06.liveOriginalEncodingIsCodec, p.2 = true := by decide
+
+/-- … and with the repair the bogus name is skipped and the byte-order mark's encoding is reported -/
+theorem original_encoding_repaired_falls_through :
+    (dammitE Code.live (bomOnly.withEmptyGuard bomOnlyEnc true)).map (·.originalEncoding) = .ok (some 2) := by decide
+
+example : ∀ c b u, bomOnly.decode c b = .ok u → (fun _ : Nat => (Except.ok () : Except Err Unit)) c = .ok () :=
+  fun _ _ _ _ => rfl
+example : ∀ c x, bomOnlyEnc c = .error x → x ∈ Gen.C06.recorded.decode := by
+  intro c x h
+  unfold bomOnlyEnc at h
+  split at h
+  · injection h with h; subst h; decide
+  · cases h
 
 /-! ### the object when the constructor returns -/
 
